@@ -261,6 +261,27 @@ theorem delivery_time_formula (mt : Metrics) (ops : List Op) (w : World State)
   have := hj p.2 hmem
   refine ⟨p, hp, rfl, rfl, ?_, ?_⟩ <;> simp only [exitFor] <;> omega
 
+/-- **The jitter is in `[0, jitter)`**: if every jitter sample is *below* the configured jitter
+    (what `calculate_duration` guarantees after the repair of F16; before it the nanosecond
+    rounding could return `jitter` itself), every delivery happens strictly before
+    `start + tx + latency + jitter` and not before `start + tx + latency`. -/
+theorem delivery_time_strictly_below_jitter_bound (mt : Metrics) (ops : List Op) (w : World State)
+    (h : mrun mt ops = .ok w) (hj : ∀ m ∈ w.offered, m.j < mt.jitter) :
+    ∀ e ∈ w.exits, ∃ p ∈ w.started, e.id = p.2.id ∧ e.sched = p.1 ∧
+      p.1 + p.2.tx + mt.latency ≤ e.time ∧ e.time < p.1 + p.2.tx + mt.latency + mt.jitter := by
+  obtain ⟨hex, _⟩ := delivery_time_formula mt ops w h
+  intro e he
+  rw [hex] at he
+  simp only [List.mem_map] at he
+  obtain ⟨p, hp, rfl⟩ := he
+  have hmem : p.2 ∈ w.offered := by
+    have := (each_message_one_fate mt ops w h).1
+    rw [this.mem_iff]
+    simp only [List.mem_append, List.mem_map]
+    exact Or.inl (Or.inl (Or.inl ⟨p, hp, rfl⟩))
+  have := hj p.2 hmem
+  refine ⟨p, hp, rfl, rfl, ?_, ?_⟩ <;> simp only <;> omega
+
 /-- **Zero jitter: delivery times follow offer order.**  Without jitter the exit events, which are
     scheduled in offer order (`queue_fifo`), carry non-decreasing timestamps — a message offered
     later is never due earlier. -/
